@@ -86,6 +86,12 @@ PENDING = {
         "'auto'/byte-string chunks with a zero-length dimension divide by the zero largest block (auto_chunks / _compute_multiplier)",
     "normalize_chunks:auto&previous_chunks:over-limit-within-tolerance":
         "with previous_chunks the auto chunks exceed `limit` by up to array.chunk-size-tolerance (1.25)",
+    "normalize_chunks:byte-string&string-limit:ValueError@array/core.py:normalize_chunks":
+        "chunks='128B' with limit='128B' raises 'Only one consistent value ... Used 128 != 128B' (limit compared unparsed)",
+    "rechunk:0-d&balance:ValueError@array/rechunk.py:_compute_rechunk":
+        "rechunk(balance=True) of a 0-d array raises ValueError (the early return is skipped under balance)",
+    "rechunk:zero-length&balance:ZeroDivisionError@array/rechunk.py:_get_chunks":
+        "rechunk(balance=True) with a zero-length axis (array not entirely empty) divides by zero in _balance_chunksizes",
 }
 
 BYTES = ["8B", "16 B", "64B", "100 B", "128B", "1KiB", "1kB", "4KiB"]
@@ -630,7 +636,7 @@ def _rc_random(rng):
         thr = rng.choice((None, None, 1, 2, 0.5, 3, 1000))
         bsl = rng.choice((None, None, 8, 16, 64, 256, 1024, "64B"))
     else:
-        shape = A.rand_shape(rng, maxnd=3, maxlen=9, minnd=0 if flav == "plain" else 1, allow_zero=True)
+        shape = A.rand_shape(rng, maxnd=3, maxlen=9, minnd=0 if flav == "plain" and rng.random() < 0.3 else 1, allow_zero=True)
         if flav == "zero" and shape:
             shape = list(shape)
             shape[rng.randrange(len(shape))] = 0
